@@ -452,6 +452,11 @@ fn exec_count(plan: &Plan) -> Outcome {
             .and_then(|n| n.trim().parse().ok());
         evals += 1;
         stats.bump("cli/count-positions-depths-compared");
+        if got.is_none() {
+            // the output format is not what this tier knows how to read: not a verdict
+            out.desync = Some(format!("cannot find 'depth: {}, positions: N' in the output of count-positions", d));
+            break;
+        }
         if got != Some(want) {
             out.violation = Some(Violation {
                 class: format!("C10/cli/count-positions-output-differs-from-reference/depth-{}", d),
